@@ -184,6 +184,27 @@ func main() {
 				}
 			}
 		}
+		// a sign character in place of the first digit of a numeric protected field (strconv.Atoi
+		// accepts one: "+0001" reads as 1, "-0001" as -1): ties parseNumField on non-digit input
+		for li := 0; li < len(lines); li++ {
+			for _, fd := range prot[li] {
+				if strings.HasSuffix(fd.name, ":odfi") || strings.HasSuffix(fd.name, ":rdfi") || strings.HasSuffix(fd.name, ":check-digit") {
+					continue
+				}
+				if r.Intn(3) != 0 {
+					continue
+				}
+				for _, sign := range []byte{'+', '-'} {
+					bs := []byte(lines[li])
+					orig := bs[fd.lo]
+					bs[fd.lo] = sign
+					cp := append([]string{}, lines...)
+					cp[li] = string(bs)
+					emitV(strings.Join(cp, "\n"), fmt.Sprintf("%s: sign %s line %d col %d %c->%c", id, fd.name, li+1, fd.lo+1, orig, sign))
+					stats["sign "+fd.name]++
+				}
+			}
+		}
 		// truncations: every offset of the file control line and its neighbours, a stride elsewhere; LF and CRLF
 		for _, t := range []struct {
 			text, le string
